@@ -4,6 +4,12 @@ From Coq Require Import NArith List Bool Arith Lia ZifyBool ZifyNat ZifyN.
 From FEC Require Import Generated.FEConsts Base.ListX Base.Bytes Base.Crc32 Base.Scan Base.FEFormat Models.PyDecoderM.
 Import ListNotations.
 
+Lemma shorter_ltb : forall n (l : list N), PyDecoder_shorter l n = Nat.ltb (length l) n.
+Proof.
+  induction n as [|n IH]; intros l; [destruct l; reflexivity|].
+  destruct l as [|b t]; cbn [PyDecoder_shorter length]; [reflexivity|]. rewrite IH. reflexivity.
+Qed.
+
 Section JudgeFacts0.
   Variable maxp maxe : N.
   Notation judge := (PyDecoder_judge maxp maxe).
@@ -11,7 +17,7 @@ Section JudgeFacts0.
   (* for maxp <= maxe (the constructor default is maxp = maxe) the SPEC is literally the Base judge *)
   Lemma judge_py_eq_fe : (maxp <= maxe)%N -> forall l, judge l = judge_fe false true maxp l.
   Proof.
-    intros Hm l. unfold PyDecoder_judge, judge_fe. cbn [andb].
+    intros Hm l. unfold PyDecoder_judge, judge_fe. rewrite shorter_ltb. cbn [andb].
     destruct (Nat.ltb (length l) HEADER_SIZE); [reflexivity|].
     set (h := parse_header (firstn HEADER_SIZE l)).
     destruct (negb (N.eqb (h_sync0 h) SYNC0 && N.eqb (h_sync1 h) SYNC1)); [reflexivity|].
@@ -30,7 +36,7 @@ Section JudgeFacts0.
   Lemma judge_py_accept_iff l n :
     judge l = Accept n <-> judge_fe false true (N.min maxp maxe) l = Accept n.
   Proof.
-    unfold PyDecoder_judge, judge_fe. cbn [andb].
+    unfold PyDecoder_judge, judge_fe. rewrite shorter_ltb. cbn [andb].
     destruct (Nat.ltb (length l) HEADER_SIZE); [tauto|].
     set (h := parse_header (firstn HEADER_SIZE l)).
     destruct (negb (N.eqb (h_sync0 h) SYNC0 && N.eqb (h_sync1 h) SYNC1)); [tauto|].
@@ -56,7 +62,7 @@ Section JudgeFacts0.
   Proof.
     constructor.
     - reflexivity.
-    - intros l x. unfold PyDecoder_judge.
+    - intros l x. unfold PyDecoder_judge. rewrite !shorter_ltb.
       destruct (Nat.ltb (length l) HEADER_SIZE) eqn:E1; [congruence|]. apply Nat.ltb_ge in E1.
       assert (Hx : Nat.ltb (length (l ++ x)) HEADER_SIZE = false) by (apply Nat.ltb_ge; rewrite app_length; lia).
       rewrite Hx, firstn_app_ge by exact E1.
@@ -68,7 +74,7 @@ Section JudgeFacts0.
       rewrite (of_nat_ltb_app _ x _ E2). apply N.ltb_ge in E2.
       destruct (N.ltb maxe (h_psize h)); [reflexivity|].
       intros _. unfold crc_region. rewrite sub_app_l by (unfold HEADER_SIZE in *; lia). reflexivity.
-    - intros l n. unfold PyDecoder_judge.
+    - intros l n. unfold PyDecoder_judge. rewrite shorter_ltb.
       destruct (Nat.ltb (length l) HEADER_SIZE); [discriminate|].
       set (h := parse_header (firstn HEADER_SIZE l)).
       destruct (negb (N.eqb (h_sync0 h) SYNC0 && N.eqb (h_sync1 h) SYNC1)); [discriminate|].
@@ -99,7 +105,7 @@ Section JudgeFacts.
       + intros _. rewrite (j_stable _ OK) by congruence. rewrite J.
         pose proof (j_bound _ OK _ _ J) as Hn.
         assert (H24 : (HEADER_SIZE <= length l)%nat).
-        { unfold PyDecoder_judge in J. destruct (Nat.ltb (length l) HEADER_SIZE) eqn:E; [discriminate|]. apply Nat.ltb_ge in E. exact E. }
+        { unfold PyDecoder_judge in J. rewrite shorter_ltb in J. destruct (Nat.ltb (length l) HEADER_SIZE) eqn:E; [discriminate|]. apply Nat.ltb_ge in E. exact E. }
         rewrite firstn_app_ge by exact H24.
         rewrite sub_app_l; [reflexivity|]. unfold HEADER_SIZE in *. lia.
       + intros _. rewrite (j_stable _ OK) by congruence. rewrite J. reflexivity.
@@ -190,7 +196,7 @@ Section Refine.
       if N.eqb (crc32 (sub b 8 (HEADER_SIZE + N.to_nat (h_psize h) - 8))) (h_crc h)
       then Accept (HEADER_SIZE + N.to_nat (h_psize h)) else Reject.
   Proof.
-    intros (H24 & Hh & S0 & S1 & R0 & Hp & Hml). unfold PyDecoder_judge.
+    intros (H24 & Hh & S0 & S1 & R0 & Hp & Hml). unfold PyDecoder_judge. rewrite shorter_ltb.
     assert (E : Nat.ltb (length b) HEADER_SIZE = false) by (apply Nat.ltb_ge; exact H24). rewrite E.
     rewrite <- Hh. rewrite S0, S1, R0, !N.eqb_refl. cbn [andb negb].
     assert (E1 : N.ltb maxp (h_psize h) = false) by (apply N.ltb_ge; exact Hp). rewrite E1.
@@ -257,10 +263,10 @@ Section Refine.
 
   Lemma step_ok_step st : PyDecoder_Inv st -> pd_buf st <> [] -> step_ok st (step st).
   Proof.
-    intros HI Hne. unfold PyDecoder_step.
+    intros HI Hne. unfold PyDecoder_step. rewrite shorter_ltb.
     destruct (Nat.ltb (length (pd_buf st)) HEADER_SIZE) eqn:E0.
     { apply Nat.ltb_lt in E0. cbn [step_ok]. repeat split; try reflexivity; try assumption.
-      - unfold PyDecoder_judge_dec, PyDecoder_judge.
+      - unfold PyDecoder_judge_dec, PyDecoder_judge. rewrite shorter_ltb.
         assert (E : Nat.ltb (length (pd_buf st)) HEADER_SIZE = true) by (apply Nat.ltb_lt; exact E0). rewrite E. reflexivity.
       - intros _. exact E0.
       - intros _. unfold PyDecoder_Inv in HI. destruct (pd_hdr st) as [h|]; [|reflexivity].
@@ -273,21 +279,21 @@ Section Refine.
     assert (Hnl : Nat.ltb (length (b0 :: b1 :: t)) HEADER_SIZE = false) by (apply Nat.ltb_ge; exact E0).
     destruct (negb (N.eqb b0 SYNC0)) eqn:ES0.
     { cbn [step_ok PyDecoder_pop pd_buf pd_processed pd_hdr]. rewrite Hb.
-      unfold PyDecoder_judge_dec, PyDecoder_judge. rewrite Hnl, HS0, HS1.
+      unfold PyDecoder_judge_dec, PyDecoder_judge. rewrite shorter_ltb. rewrite Hnl, HS0, HS1.
       apply negb_true_iff in ES0. rewrite ES0. cbn [andb negb]. repeat split; reflexivity. }
     destruct (negb (N.eqb b1 SYNC1)) eqn:ES1.
     { cbn [step_ok PyDecoder_pop pd_buf pd_processed pd_hdr]. rewrite Hb.
-      unfold PyDecoder_judge_dec, PyDecoder_judge. rewrite Hnl, HS0, HS1.
+      unfold PyDecoder_judge_dec, PyDecoder_judge. rewrite shorter_ltb. rewrite Hnl, HS0, HS1.
       apply negb_true_iff in ES1. rewrite ES1, andb_false_r. cbn [negb]. repeat split; reflexivity. }
     apply negb_false_iff, N.eqb_eq in ES0, ES1.
     set (h := parse_header (firstn HEADER_SIZE (b0 :: b1 :: t))) in *.
     destruct (negb (N.eqb (h_reserved h) 0)) eqn:ER.
     { cbn [step_ok PyDecoder_pop pd_buf pd_processed pd_hdr]. rewrite Hb.
-      unfold PyDecoder_judge_dec, PyDecoder_judge. rewrite Hnl. fold h. rewrite HS0, HS1, ES0, ES1, !N.eqb_refl.
+      unfold PyDecoder_judge_dec, PyDecoder_judge. rewrite shorter_ltb. rewrite Hnl. fold h. rewrite HS0, HS1, ES0, ES1, !N.eqb_refl.
       cbn [andb negb]. rewrite ER. repeat split; reflexivity. }
     destruct (N.ltb maxp (h_psize h)) eqn:EM.
     { cbn [step_ok PyDecoder_pop pd_buf pd_processed pd_hdr]. rewrite Hb.
-      unfold PyDecoder_judge_dec, PyDecoder_judge. rewrite Hnl. fold h. rewrite HS0, HS1, ES0, ES1, !N.eqb_refl.
+      unfold PyDecoder_judge_dec, PyDecoder_judge. rewrite shorter_ltb. rewrite Hnl. fold h. rewrite HS0, HS1, ES0, ES1, !N.eqb_refl.
       cbn [andb negb]. rewrite ER, EM. repeat split; reflexivity. }
     apply negb_false_iff, N.eqb_eq in ER. apply N.ltb_ge in EM.
     set (st1 := {| pd_buf := b0 :: b1 :: t; pd_hdr := Some h; pd_msg_len := (h_psize h + N.of_nat HEADER_SIZE)%N;
